@@ -313,24 +313,24 @@ theorem step_nstepE {P : Params} (hP : P.Valid) (σ : Sys P) (hinv : Inv P hP σ
     (hen : enabled σ a = true) :
     ∃ evs : List (Ev (Op P)), P.honest (actor a) = true ∧
       step σ a = σ.update (actor a) (stepCtrl σ a) (stepOuts σ a) evs ∧
-      NStep (P.cfg (actor a)) P.height (fun m => authentic P σ.log m = true) (actor a)
+      NStep (P.cfg (actor a)) P.height (fun m => authentic P σ.log m = true ∧ m.ident = ownIdent) (actor a)
         (instAt P.height (σ.ctrl (actor a))) (instAt P.height (stepCtrl σ a)) (bcasts (stepOuts σ a)) evs := by
   cases a with
   | start i v =>
     have hi : P.honest i = true := hen
-    obtain ⟨_, h2⟩ := ctrl_start_node (P.cfg i) P.height (fun m => authentic P σ.log m = true) i (σ.ctrl i) v
+    obtain ⟨_, h2⟩ := ctrl_start_node (P.cfg i) P.height (fun m => authentic P σ.log m = true ∧ m.ident = ownIdent) i (σ.ctrl i) v
       (hinv.shape i) (capacity_pos P i)
     exact ⟨_, hi, rfl, h2⟩
   | deliver i m =>
     have hen' : P.honest i = true ∧ authentic P σ.log m = true := by
       simpa [enabled] using hen
-    obtain ⟨_, h2⟩ := ctrl_processMsg_node (P.cfg i) P.height (fun m => authentic P σ.log m = true) i (σ.ctrl i) m
-      (hinv.shape i) (capacity_pos P i) hen'.2
-      (fun hv _ => (cert_facts hP hinv.log i m hv hen'.2).height)
+    obtain ⟨_, h2⟩ := ctrl_processMsg_node (P.cfg i) P.height (fun m => authentic P σ.log m = true ∧ m.ident = ownIdent) i (σ.ctrl i) m
+      (hinv.shape i) (capacity_pos P i) (fun hid => ⟨hen'.2, hid⟩)
+      (fun hv hid => (cert_facts hP hinv.log i m hv hen'.2 hid).height)
     exact ⟨_, hen'.1, rfl, h2⟩
   | timeout i r =>
     have hi : P.honest i = true := hen
-    obtain ⟨_, h2⟩ := ctrl_onTimeout_node (P.cfg i) P.height (fun m => authentic P σ.log m = true) i (σ.ctrl i) r
+    obtain ⟨_, h2⟩ := ctrl_onTimeout_node (P.cfg i) P.height (fun m => authentic P σ.log m = true ∧ m.ident = ownIdent) i (σ.ctrl i) r
       (hinv.shape i)
     exact ⟨_, hi, rfl, h2⟩
 
